@@ -133,6 +133,45 @@ def cache_coherence(facts, res, entry_keys=None):
                 for fn_ in busfields:
                     if '"n": "%s"' % fn_ in txt2:
                         readfields.add(fn_)
+        # the cached field(s), and who else writes them: when code other than the filling function stores into the cache (an invalidation
+        # outside Bus::write, e.g. in a Cpu-level write wrapper) this rule cannot tell - not decidable instead of a finding
+        cfields = set()
+        bfill = facts.bodies[k]
+        for bl in bfill["blocks"]:
+            t = bl["term"]
+            if t["k"] == "call" and "cell::Cell" in (t["callee"]["path"] or "") and (t["callee"]["path"] or "").split("::")[-1] in ("set", "replace") and t["args"] and t["args"][0].get("k") in ("copy", "move"):
+                l0 = t["args"][0]["p"]["l"]
+                for bl2 in bfill["blocks"]:
+                    for s_ in bl2["st"]:
+                        if s_["k"] == "assign" and s_["p"]["l"] == l0 and s_["r"]["k"] in ("ref", "rawptr"):
+                            fl_ = [pr["n"] for pr in s_["r"]["p"]["p"] if pr["k"] == "field"]
+                            if fl_:
+                                cfields.add(fl_[-1])      # the cell itself (last field of the place)
+        cfields -= set(busfields)
+        other_writers = []
+        for k3, b3 in facts.bodies.items():
+            if k3 == k or k3.endswith("::new"):
+                continue
+            txt3 = json_.dumps(b3)
+            if any('"n": "%s"' % cf in txt3 for cf in cfields) and ("cell::Cell" in txt3 or '"k": "assign"' in txt3):
+                # does it store (Cell::set / replace / assignment through the field)?
+                for bl in b3["blocks"]:
+                    t = bl["term"]
+                    if t["k"] == "call" and "cell::Cell" in (t["callee"]["path"] or "") and (t["callee"]["path"] or "").split("::")[-1] in ("set", "replace", "take") and t["args"] and t["args"][0].get("k") in ("copy", "move"):
+                        l3 = t["args"][0]["p"]["l"]
+                        for bl4 in b3["blocks"]:
+                            for s4 in bl4["st"]:
+                                if s4["k"] == "assign" and s4["p"]["l"] == l3 and s4["r"]["k"] in ("ref", "rawptr"):
+                                    fl4 = [pr["n"] for pr in s4["r"]["p"]["p"] if pr["k"] == "field"]
+                                    if fl4 and fl4[-1] in cfields:
+                                        other_writers.append(k3)
+                    for s_ in bl["st"]:
+                        fl3 = [pr["n"] for pr in s_["p"]["p"] if pr["k"] == "field"] if s_["k"] == "assign" else []
+                        if fl3 and fl3[-1] in cfields:
+                            other_writers.append(k3)
+        if other_writers:
+            res.errors.append("cache rule: %s is also written by %s: whether that is a sufficient invalidation is not decidable by this rule" % (sorted(cfields), sorted(set(x.split("::")[-1] for x in other_writers))[:3]))
+            continue
         bm0 = BusModel(facts)
         ctl = sorted(f_ for f_ in readfields if f_ not in bm0.stores)
         for a in sorted(sources):
